@@ -207,7 +207,7 @@ def eval_program(module, fname, inputs, want=("ref", "model", "irrun", "wf", "op
         rec.update(opt_struct(c0[1].IRModule, c1[1].IRModule))
     for tag, c in (("0", c0), ("1", c1)):
         if c is None or c[0] != 'ok': continue
-        if "irrun" in want or "wf" in want:
+        if "irrun" in want or "wf" in want or "irtype" in want:
             try:
                 ps = implrun.program_sexp(c[1].IRModule.Functions, c[1].IRModule.Globals)
             except BaseException as e:
@@ -217,6 +217,9 @@ def eval_program(module, fname, inputs, want=("ref", "model", "irrun", "wf", "op
             if ans != "ok":
                 rec["dump_error" + tag] = "driver cannot parse IR dump"
                 continue
+            if "irtype" in want:
+                rec["irtype" + tag] = d.ask("irtylayers")
+                if "full=yes" not in rec["irtype" + tag]: rec["irtype_detail" + tag] = d.ask("irtycheck")[:300]
             if "wf" in want:
                 rec["wf" + tag] = d.ask("wf")
                 rec["wfchecks" + tag] = d.ask("wfchecks")
